@@ -15,5 +15,6 @@ open XotModel.Props
 #print axioms C14_pretty_where_frozen
 #print axioms C14_pretty_where_partial
 #print axioms C14_pretty_where_false
+#print axioms C14_doctype_false
 #print axioms C14_pretty_where_tree
 #print axioms C14_pretty_where_tree_mixed
